@@ -155,10 +155,15 @@ def check_init(ctx, num=4):
             ctx.ob(num, "K1", f"the {a} of an assignment is never modified after construction", False, w.fn, w.node, detail=who)
     ai = P.fn(AS, "Assignment.__init__")
     ctx.touch(ai)
+    gi = cfg_of(ai, subst_env=False)
     for a in ("cpu", "ram"):
         st = [n for n in own_nodes(ai.node) if isinstance(n, ast.Assign) and any(self_attr(t, a) for t in n.targets)]
         ctx.ob(num, "K6", f"Assignment.{a} is the constructor argument", len(st) == 1 and norm.U(st[0].value) == a, ai, st[0] if st else ai.node,
                construct=f"self.{a} = {a}", detail=f"{[stmt_text(s) for s in st]}")
+        # the admission check adds the amounts of a batch up: a negative amount would be a credit that lets an oversized one through
+        pos = len(st) == 1 and (norm.entails(gi.facts_at(st[0]), ("cmp", "<", "0", a)) or norm.entails(gi.facts_at(st[0]), ("cmp", "<=", "0", a)))
+        ctx.ob(num, "K2", f"an Assignment never carries a negative {a.upper()} amount (the constructor insists on {a} > 0): the batch sum of the admission check cannot be offset", pos,
+               ai, st[0] if st else ai.node, construct=f"assert {a} > 0", detail=f"facts at the store: {sorted(norm.show(x) for x in gi.facts_at(st[0])) if st else []}")
 
 
 def run(ctx):
